@@ -125,7 +125,8 @@ def _worker_ch(task, conn):
             msgs.extend(c.analyze())
         res['paths'] = int(stats.get('num_paths', 0))
         res['cases'] = len(rt.CASES)
-        res['samples'] = [repr(s) for s in rt.SAMPLES]
+        res['samples'] = list(rt.SAMPLES)
+        res['known_hits'] = dict(rt.HITS)
         if not checkables:
             res['detail'] = 'no contract found on %s' % task['fn']
         states = [m.state for m in msgs]
@@ -260,7 +261,8 @@ def run_check(prop, tier, module_name, seed=0):
     hmod = importlib.import_module(module_name)
     obs = hmod.obligations(tier)
     known = load_known(prop)
-    excluded = set()
+    excluded = set(k['key'] for k in known)
+    hit_patterns = {}
     violations = []
     known_hits = []
     inconclusive = []
@@ -305,6 +307,8 @@ def run_check(prop, tier, module_name, seed=0):
                     inconclusive.append('%s[%s] reachability twin not refuted (vacuous harness?): %s'
                                         % (ob.name, part, (r['detail'] or r['message'])[:300]))
                 continue
+            for pat, why in (r.get('known_hits') or {}).items():
+                hit_patterns.setdefault(pat, why)
             total_paths += r.get('paths', 0)
             total_cases += r.get('cases', 0)
             solver_cpu += r.get('wall_s', 0) or 0
@@ -338,13 +342,6 @@ def run_check(prop, tier, module_name, seed=0):
                                     % (ob.name, part, cex, r['detail'][:300]))
                 continue
             key = reason.split(' :: ')[0]
-            k = match_known(known, key)
-            if k is not None:
-                if key not in excluded:
-                    known_hits.append((k, key, reason))
-                    excluded.add(key)
-                again.append((ob, part, False))
-                continue
             if key not in [v['key'] for v in violations]:
                 violations.append({'obligation': ob.name, 'partition': part, 'counterexample': cex,
                                    'reason': reason, 'key': key, 'solver_message': r['detail'][:1000]})
@@ -363,6 +360,9 @@ def run_check(prop, tier, module_name, seed=0):
             except Exception as e:
                 v['real_fs'] = 'real-fs replay failed: %s' % (e,)
 
+    for k in known:
+        if k['key'] in hit_patterns:
+            known_hits.append((k, k['key'], hit_patterns[k['key']]))
     wall = round(time.time() - t_start, 2)
     ob_records = list(agg.values())
     n_ob = sum(len(o['partitions']) for o in ob_records)
@@ -380,7 +380,7 @@ def run_check(prop, tier, module_name, seed=0):
         'explanation': meta.get('explanation', ''),
         'obligations_detail': ob_records,
         'solver_wall_s_total': round(solver_cpu, 2),
-        'known_findings_hit': [k[1] for k in known_hits],
+        'known_findings_hit': [{'pattern': k[1], 'first_hit': k[2][:300]} for k in known_hits],
         'inconclusive': inconclusive,
         'exhaustive': False,
     }
@@ -394,8 +394,8 @@ def run_check(prop, tier, module_name, seed=0):
     with open(os.path.join(HERE, 'evidence', prop + '.json'), 'w') as f:
         json.dump(ev, f, indent=1, default=repr)
 
-    for k, key, reason in known_hits:
-        print('KNOWN-FINDING: property=%s %s [%s]' % (prop, k['what'], key))
+    for k, pat, why in known_hits:
+        print('KNOWN-FINDING: property=%s %s [%s]' % (prop, k['what'], why.split(' :: ')[0]))
     for o in ob_records:
         for p in o['partitions']:
             print('  %-34s %-12s paths=%-6s cases=%-6s %.1fs %s' % (
